@@ -788,6 +788,55 @@ fn c16_uris_enum(tier: Tier, shard: u64, nshards: u64, f: &mut dyn FnMut(&[u64])
     }
 }
 
+/// absolute form: "http://" + every string of <= k symbols. params = [suffix length, prefix index]
+fn c16_uris_abs(input: &Input, obs: &mut Obs) -> Result<(), Fail> {
+    let p = input.params();
+    let len = p[0] as usize;
+    let head = len.saturating_sub(3);
+    let mut prefix = String::from("http://");
+    let mut x = p[1];
+    for _ in 0..head {
+        prefix.push_str(URI_ALPHA[(x % 9) as usize]);
+        x /= 9;
+    }
+    let tail = len - head;
+    let total = 9u64.pow(tail as u32);
+    let mut nt = 0u64;
+    let mut u = String::with_capacity(48);
+    for t in 0..total {
+        u.clear();
+        u.push_str(&prefix);
+        let mut y = t;
+        for _ in 0..tail {
+            u.push_str(URI_ALPHA[(y % 9) as usize]);
+            y /= 9;
+        }
+        if uri_check(&u)? {
+            nt += 1;
+        }
+    }
+    obs.extra_evals = total - 1;
+    obs.extra_nontrivial = nt;
+    if obs.want_render {
+        obs.render = format!("all URIs \"{}\" + {} more symbols", prefix, tail);
+    }
+    Ok(())
+}
+
+fn c16_uris_abs_enum(tier: Tier, shard: u64, nshards: u64, f: &mut dyn FnMut(&[u64]) -> bool) {
+    let maxlen = if tier == Tier::Quick { 6 } else { 8 };
+    let mut c = 0u64;
+    for len in 0..=maxlen as u64 {
+        let head = len.saturating_sub(3);
+        for pi in 0..9u64.pow(head as u32) {
+            c += 1;
+            if c % nshards == shard && !f(&[len, pi]) {
+                return;
+            }
+        }
+    }
+}
+
 /// random longer URIs
 fn c16_uri_random(input: &Input, obs: &mut Obs) -> Result<(), Fail> {
     let mut s = Src::new(input.bytes());
@@ -814,6 +863,7 @@ fn c16_plan(tier: Tier) -> Vec<Job> {
         Job { sub: "edits", kind: JobKind::Enum { f: c16_edits_enum, bound: "every single-byte substitution (256 values), deletion and insertion (256 values) at every position of every canonical token" }, smallbuf: false },
         Job { sub: "misc", kind: JobKind::Enum { f: c16_misc_enum, bound: "media types with 0..2 of 8 whitespace kinds on each side; round trips of all values; all 11 status codes" }, smallbuf: false },
         Job { sub: "uris", kind: JobKind::Enum { f: c16_uris_enum, bound: if q { "all URIs of <= 7 symbols over {h,t,p,:,/,a,.,%,U+00E9}" } else { "all URIs of <= 9 symbols over {h,t,p,:,/,a,.,%,U+00E9}" } }, smallbuf: false },
+        Job { sub: "uris_abs", kind: JobKind::Enum { f: c16_uris_abs_enum, bound: if q { "\"http://\" followed by every string of <= 6 symbols over the same alphabet" } else { "\"http://\" followed by every string of <= 8 symbols over the same alphabet" } }, smallbuf: false },
         Job { sub: "uri_random", kind: JobKind::Pbt { cases: if q { 300_000 } else { 5_000_000 }, max_len: 48 }, smallbuf: false },
     ]
 }
@@ -821,7 +871,7 @@ fn c16_plan(tier: Tier) -> Vec<Job> {
 pub fn c16() -> PropDef {
     PropDef {
         id: "C16",
-        subs: vec![("tokens", c16_tokens), ("edits", c16_edits), ("misc", c16_misc), ("uris", c16_uris), ("uri_random", c16_uri_random)],
+        subs: vec![("tokens", c16_tokens), ("edits", c16_edits), ("misc", c16_misc), ("uris", c16_uris), ("uris_abs", c16_uris_abs), ("uri_random", c16_uri_random)],
         plan: c16_plan,
         rule: "bounded-exhaustive: every string of the stated alphabets/lengths and every single-byte edit of every canonical token is evaluated once against the canonical-spelling table; URIs against the reference absolute-path function and the suffix invariant; non-trivial = input within edit distance 1 of a canonical token (or accepted), or a URI containing '/'; cases are distinct by construction (each enumerated once)",
         assumptions: vec!["URIs are reached through Request::try_from(b\"GET <uri> HTTP/1.1\\r\\n\\r\\n\").uri() (Uri has no public constructor)"],
@@ -1030,10 +1080,85 @@ fn c17_small_enum(tier: Tier, shard: u64, nshards: u64, f: &mut dyn FnMut(&[u64]
     }
 }
 
+/// paths of every length: params = [first length of a block of 8]
+fn c17_long(input: &Input, obs: &mut Obs) -> Result<(), Fail> {
+    let p = input.params();
+    let mut cnt = 0u64;
+    for len in p[0]..p[0] + 8 {
+        let len = len as usize;
+        let base = format!("/{}", "p".repeat(len.saturating_sub(1)));
+        for (pi, prefix) in ["", "/api/v1"].iter().enumerate() {
+            let log = Arc::new(Mutex::new(Vec::new()));
+            let mut router: HttpRoutes<u32> = HttpRoutes::new("S".to_string(), prefix.to_string());
+            // three sibling routes that differ only at or after position `len`
+            let paths = [base.clone(), format!("{}x", base), format!("{}/y", base)];
+            for (i, path) in paths.iter().enumerate() {
+                let m = method_of(((i + pi) % 3) as u8);
+                if router.add_route(m, path.clone(), Box::new(Rec { id: i, log: log.clone() })).is_err() {
+                    return Err(Fail::new("C17:add-route", format!("distinct route #{} of length {} refused", i, path.len())));
+                }
+            }
+            let probes = [base.clone(), format!("{}x", base), format!("{}/y", base), format!("{}z", base), format!("{}xx", base), base[..base.len() - 1].to_string()];
+            for (k, probe) in probes.iter().enumerate() {
+                for mi in 0..3u8 {
+                    for form in 0..2 {
+                        let uri = if form == 0 { format!("{}{}", prefix, probe) } else { format!("http://h{}{}", prefix, probe) };
+                        if uri.is_empty() || uri.len() > 900 {
+                            continue;
+                        }
+                        let bytes = format!("{} {} HTTP/1.1\r\n\r\n", std::str::from_utf8(METHODS[mi as usize]).unwrap(), uri);
+                        let req = match Request::try_from(bytes.as_bytes(), None) {
+                            Ok(r) => r,
+                            Err(_) => continue,
+                        };
+                        log.lock().unwrap().clear();
+                        let resp = router.handle_http_request(&req, &(k as u32));
+                        let calls = log.lock().unwrap().clone();
+                        let want = paths.iter().position(|x| x == probe).filter(|i| ((i + pi) % 3) as u8 == mi);
+                        cnt += 1;
+                        match want {
+                            Some(id) => {
+                                if calls != vec![(id, k as u32)] {
+                                    return Err(Fail::new("C17:dispatch", format!("path of {} bytes (prefix {:?}), probe #{} method {}: invoked {:?}, expected handler {}", probe.len(), prefix, k, mi, calls, id)));
+                                }
+                            }
+                            None => {
+                                if !calls.is_empty() || resp.status() != StatusCode::NotFound {
+                                    return Err(Fail::new("C17:dispatch", format!("path of {} bytes (prefix {:?}), probe #{} method {} matches no route: invoked {:?}, status {:?}", probe.len(), prefix, k, mi, calls, resp.status())));
+                                }
+                            }
+                        }
+                    }
+                }
+            }
+        }
+    }
+    obs.extra_evals = cnt.saturating_sub(1);
+    obs.extra_nontrivial = cnt;
+    if obs.want_render {
+        obs.render = format!("three sibling routes on paths of every length {}..{} (with and without a prefix) x 6 probe paths x 3 methods x 2 URI forms", p[0], p[0] + 7);
+    }
+    Ok(())
+}
+
+fn c17_long_enum(tier: Tier, shard: u64, nshards: u64, f: &mut dyn FnMut(&[u64]) -> bool) {
+    let max = if tier == Tier::Quick { 400 } else { 880 };
+    let mut c = 0u64;
+    let mut start = 2u64;
+    while start < max {
+        c += 1;
+        if c % nshards == shard && !f(&[start]) {
+            return;
+        }
+        start += 8;
+    }
+}
+
 fn c17_plan(tier: Tier) -> Vec<Job> {
     let q = tier == Tier::Quick;
     vec![
         Job { sub: "tables", kind: JobKind::Pbt { cases: if q { 300_000 } else { 6_000_000 }, max_len: 80 }, smallbuf: false },
+        Job { sub: "long", kind: JobKind::Enum { f: c17_long_enum, bound: "sibling routes on paths of every length 2..399 (thorough: ..879), with and without a prefix, probed with the exact path, one-byte extensions, a truncation, 3 methods, origin and absolute form" }, smallbuf: false },
         Job { sub: "small", kind: JobKind::Enum { f: c17_small_enum, bound: "4 prefixes x all ordered route tables of <= 2 (quick) / <= 3 (thorough) registrations over 3 methods x 10 paths (duplicates included) x all requests over the same alphabet in origin-form and two absolute forms, with and without the prefix" }, smallbuf: false },
     ]
 }
@@ -1041,7 +1166,7 @@ fn c17_plan(tier: Tier) -> Vec<Job> {
 pub fn c17() -> PropDef {
     PropDef {
         id: "C17",
-        subs: vec![("tables", c17_tables), ("small", c17_small)],
+        subs: vec![("tables", c17_tables), ("small", c17_small), ("long", c17_long)],
         plan: c17_plan,
         rule: "case = (prefix, 0..8 registrations over 3 methods x 10 paths incl. prefixes of one another, ':' and empty, requests in origin/absolute form); handlers record invocations and return distinguishable responses; oracle = model map (method, prefix+path) -> first registered handler, exactly-one-invocation with the caller's argument, 404 otherwise, Server/Content-Type stamp read back by the independent response reader; non-trivial = >=2 routes that share a path, a method or a path prefix (or a duplicate) and at least one request evaluated",
         assumptions: vec![],
@@ -1473,11 +1598,15 @@ fn fields_eq(q: &Request, d: &Delivered) -> Option<String> {
 pub fn c14_check(slice: &[u8], obs: &mut Obs) -> Result<(), Fail> {
     let b = buf_size();
     let one = Request::try_from(slice, None);
-    // REF as referee for comparability (line lengths, payload) and for the report
-    let limit = u32::MAX as usize;
+    // REF as referee for comparability (line lengths, payload) and for the report.
+    // The connection keeps its default limit whenever the slice is within it (the statement's
+    // "within the line and payload limits"); otherwise it is given the largest one.
+    let (_, end_default) = ref_parse(slice, b, DEFAULT_LIMIT);
+    let within_default = !matches!(end_default, End::Error { err: RefErr::Payload { .. }, .. });
+    let limit = if within_default { DEFAULT_LIMIT } else { u32::MAX as usize };
     let (reqs, end) = ref_parse(slice, b, limit);
     // feed the connection with whole-window reads, limit >= any declared length
-    let mut run = ConnRun::new(slice.to_vec(), Some(limit), false);
+    let mut run = ConnRun::new(slice.to_vec(), if within_default { None } else { Some(limit) }, false);
     let mut delivered: Vec<Delivered> = Vec::new();
     let mut conn_err: Option<RRes> = None;
     let mut guard = 0;
@@ -1516,8 +1645,29 @@ pub fn c14_check(slice: &[u8], obs: &mut Obs) -> Result<(), Fail> {
         }
         Err(_) => obs.label("oneshot_rejects"),
     }
-    // converse: exactly one request, nothing left over, no error
-    let exactly_one = delivered.len() == 1 && conn_err.is_none() && reqs.len() == 1 && reqs[0].complete_at == slice.len();
+    // converse: exactly one request, nothing left over, no error. "Nothing left over" is judged on
+    // the connection itself: a probe request fed afterwards must come out clean and alone.
+    let mut exactly_one = false;
+    if delivered.len() == 1 && conn_err.is_none() {
+        let probe = b"GET /probe-c14 HTTP/1.1\r\n\r\n";
+        run.feed(probe);
+        let mut after: Vec<Delivered> = Vec::new();
+        let mut perr = false;
+        let mut g = 0;
+        while run.remaining() > 0 && g < 4 {
+            g += 1;
+            let st = run.read(ReadEv::Data { want: b, fds: vec![] }).map_err(|m| Fail::new("C14:misuse", m))?.clone();
+            after.extend(st.reqs.iter().cloned());
+            if st.res != RRes::Ok {
+                perr = true;
+                break;
+            }
+        }
+        exactly_one = !perr && after.len() == 1 && after[0].abs_path == "/probe-c14" && after[0].method == 0 && after[0].custom.is_empty() && after[0].cl == 0 && !after[0].expect && !after[0].chunked;
+        if exactly_one && !(reqs.len() == 1 && reqs[0].complete_at == slice.len()) {
+            obs.label("connection_consumed_more_than_the_grammar_says");
+        }
+    }
     if exactly_one {
         let d = &delivered[0];
         let get_with_body = d.method == 0 && d.cl > 0;
